@@ -129,7 +129,7 @@ fn prep_exec(r: &mut Rng, id: u32, cols: Vec<ColSpec>, prog: Program) -> Vec<Cmd
             act: Act::Prepare(PrepAct::Reply {
                 id,
                 params: vec![],
-                cols: cols.clone(),
+                cols: announce_cols(r, &cols),
             }),
         },
         Cmd {
@@ -1617,7 +1617,88 @@ fn gen_c16_giant_rebind(r: &mut Rng) -> Plan {
     p
 }
 
-fn gen_c16(r: &mut Rng, _t: Tier, job: u64) -> Plan {
+/// One statement with a long life: executed hundreds or tens of thousands of times on one
+/// connection (a loader that binds its types once per chunk of rows). Types travel with the
+/// first execution and again exactly 256 / 65536 (or one more or fewer) executions later, with
+/// different types; whatever the library counts per statement must not make the second table
+/// look like the first.
+fn gen_c16_long_life(r: &mut Rng, period: usize) -> Plan {
+    let big = period > 10_000;
+    let id = *r.pick(&[1u32, 7, 0, u32::MAX]);
+    let mut cmds = Vec::new();
+    cmds.push(Cmd {
+        seq: 0,
+        kind: CmdKind::Prepare(Blob::lit(b"insert into t values (?)")),
+        act: Act::Prepare(PrepAct::Reply {
+            id,
+            params: vec![ColSpec {
+                table: Blob::lit(b""),
+                name: Blob::lit(b"?"),
+                coltype: 0xfd,
+                flags: 0,
+            }],
+            cols: vec![],
+        }),
+    });
+    let exec = |bind: Option<Vec<(u8, u8)>>, v: PVal| Cmd {
+        seq: 0,
+        kind: CmdKind::Execute {
+            stmt: id,
+            flags: 0,
+            iters: 1,
+            block: ParamBlock {
+                bind,
+                values: vec![v],
+                raw: None,
+                stale_types: None,
+            },
+        },
+        act: Act::Program(simple_ok_program()),
+    };
+    let first = *r.pick(&[(0x08u8, 0u8), (0x03, 0), (0x02, 0x80)]);
+    // executions before the first binding one (they carry types too: a statement with
+    // parameters cannot be executed without ever having bound any)
+    let warm = r.usize_below(3);
+    for i in 0..warm {
+        cmds.push(exec(Some(vec![(0x01, 0)]), PVal::Int(i as i64)));
+    }
+    cmds.push(exec(Some(vec![first]), PVal::Int(1)));
+    for i in 1..period {
+        cmds.push(exec(None, PVal::Int((i % 100) as i64)));
+    }
+    // the rebind, `period` executions after the one that bound `first`
+    let text = |r: &mut Rng| PVal::Bytes {
+        data: blob_bytes(r, 8),
+        form: 0,
+    };
+    cmds.push(exec(Some(vec![(0xfd, 0)]), text(r)));
+    cmds.push(exec(None, text(r)));
+    cmds.push(exec(None, text(r)));
+    let mut p = Plan::basic(cmds);
+    p.arrival = if r.coin() { Arrival::upfront() } else { Arrival::lockstep() };
+    if big {
+        p.reads = ReadSched {
+            explicit: vec![],
+            cuts: vec![],
+            tail: Tail::Fixed(*r.pick(&[4096u32, 65_536, 1_000_003])),
+        };
+    }
+    p
+}
+
+fn gen_c16(r: &mut Rng, t: Tier, job: u64) -> Plan {
+    if job % 2_000 == 777 {
+        let period = *r.pick(&[256usize, 256, 255, 257, 512]);
+        return gen_c16_long_life(r, period);
+    }
+    if job == 1 {
+        return gen_c16_long_life(r, 65_536);
+    }
+    if job % 100_000 == 4_141 {
+        let period = *r.pick(&[65_536usize, 65_536, 65_535, 65_537, 131_072]);
+        return gen_c16_long_life(r, period);
+    }
+    let _ = t;
     if job % 4_000 == 1_313 {
         return gen_c16_many_open(r);
     }
